@@ -63,11 +63,14 @@ def check_prepare(ctx, top):
         ev = LinEv()
         probs, by_value = [], False
         for conds, v in ifexp_cases(start):
-            c = dict(conds)
-            empty = c.get("not " + L)
-            off0 = c.get("not " + offp)
-            if set(c) - {"not " + L, "not " + offp}:
+            c = {}
+            for src, truth in conds:           # a test is the truthiness of the list / of the offset, possibly negated
+                neg = src.startswith("not ")
+                c[src[4:] if neg else src] = (not truth) if neg else truth
+            if set(c) - {L, offp}:
                 raise AnalysisError("%s: start is decided by tests outside the recognised idioms: %s" % (hname, sorted(c)))
+            empty = (not c[L]) if L in c else None
+            off0 = (not c[offp]) if offp in c else None
             val = ev.ev(v)
             if empty:
                 ok = val == Lin.var("tk_circ." + units)
